@@ -88,3 +88,46 @@ impl Arena {
         unsafe { self.win.add(off) }
     }
 }
+
+/// A region of `len` bytes (any size up to the 32-bit maximum) that is committed lazily: only the pages the
+/// patches touch ever exist. It ends flush against a PROT_NONE page. Unmapped on drop.
+pub struct Huge {
+    map: *mut u8,
+    map_len: usize,
+    pub base: *mut u8,
+    pub len: usize,
+}
+
+impl Huge {
+    pub fn new(len: usize, patches: &[(usize, Vec<u8>)]) -> Huge {
+        let page = 4096;
+        let body = (len + page - 1) / page * page;
+        let map_len = body + page;
+        let p = unsafe {
+            libc::mmap(
+                ptr::null_mut(),
+                map_len,
+                libc::PROT_READ | libc::PROT_WRITE,
+                libc::MAP_PRIVATE | libc::MAP_ANONYMOUS | libc::MAP_NORESERVE,
+                -1,
+                0,
+            )
+        };
+        assert!(p != libc::MAP_FAILED, "huge reservation failed");
+        let map = p as *mut u8;
+        let rc = unsafe { libc::mprotect(map.add(body) as *mut _, page, libc::PROT_NONE) };
+        assert_eq!(rc, 0, "mprotect failed");
+        let base = unsafe { map.add(body - len) };
+        for (off, b) in patches {
+            assert!(off + b.len() <= len);
+            unsafe { ptr::copy_nonoverlapping(b.as_ptr(), base.add(*off), b.len()) };
+        }
+        Huge { map, map_len, base, len }
+    }
+}
+
+impl Drop for Huge {
+    fn drop(&mut self) {
+        unsafe { libc::munmap(self.map as *mut _, self.map_len) };
+    }
+}
